@@ -99,6 +99,21 @@ CHECKS["C08"] = dict(
     design="5/C08",
 )
 
+CHECKS["C06"] = dict(
+    engine="E2-history-bfs",
+    technique="explicit-state BFS over the octahedral group orbit (generators C4z, C4x, inversion) x atom permutations x translations on fresh real objects, invariance/covariance invariants in every state",
+    text="From the identity the 48 octahedral operations are reached breadth first through three generators; every state (and its compositions with every atom permutation and two translations) builds the transformed molecule, the signed-permutation AO representation U, fresh grids and a fresh calculator, and must reproduce the identity state's XC energy and electron count to 2e-11, vmat' = U vmat U^T to 2e-10, and per-point NLDF features at co-moved grid points to 1e-9, for semilocal, NLDF j/ij/k (incl. vector features), SDMX with l=1 terms and combined families, restricted and unrestricted. Arbitrary rotations (three Euler triples) are decided to quadrature accuracy with the discrepancy required to shrink under grid refinement.",
+    note="s/p-only basis sets; exactness only for operations that map the atom-centred Lebedev grids onto themselves.",
+    design="5/C06",
+)
+CHECKS["C13"] = dict(
+    engine="E1-config-lattice",
+    technique="enumeration of settings classes x spec/parameter/rho_mult/level alphabets x density values against independent quadrature of the documented definitions",
+    text="For every NLDF spec of versions j, i, ij, k (incl. erf_rinv and the vector dots), both semilocal levels, both rho_mult options and two parameter sets, every SDMX settings class and every semilocal mode, the reported uniform-gas value at five densities is compared with an independent evaluation of the documented definition (1-D radial quadrature of the kernels of docs/features/nldf.rst with my own transcription of the exponent formula; nested Gauss-Legendre quadrature of the documented SDMX integrals for the uniform-gas density matrix; the real semilocal plan on constant arrays); the values must also obey their declared scaling powers; FeatureSettings.ueg_vector(with_normalizers=True) must equal the raw vector pushed through the real normaliser list, and the list's reported factors must equal what the forward pass applies, for every normaliser class and semilocal mode.",
+    note="Density alphabet {0.01,0.3,1,7,100}; SDMX constants compared at 2e-4 (tabulated constants are accurate to 4e-5 for j=2).",
+    design="5/C13",
+)
+
 NOT_YET = {}
 
 
